@@ -104,3 +104,43 @@ Proof.
         front Hfor Hlen ltac:(cmp 30).
     + front Hfor Hlen ltac:(cmp 30).
 Qed.
+
+(* ------------------------------------------------------------------------------------------ *)
+(* `ReplyOn` (parser/attributes/msg.rs, translated): the three outcomes a reply handler can be declared for, and when two
+   handlers of one reply name cannot coexist. *)
+Inductive outcome := OSuccess | OError | OAlways.
+Definition outcome_v (o : outcome) : value :=
+  VCon (match o with OSuccess => "ReplyOn::Success" | OError => "ReplyOn::Error" | OAlways => "ReplyOn::Always" end) [].
+Definition outcome_eqb (a b : outcome) : bool :=
+  match a, b with OSuccess, OSuccess | OError, OError | OAlways, OAlways => true | _, _ => false end.
+Definition is_always (a : outcome) : bool := match a with OAlways => true | _ => false end.
+
+(* two declarations exclude each other exactly when they name the same outcome or one of them is `always` *)
+Theorem translated_reply_on_excludes d (a b : outcome) :
+  calls check_fns (S d) "ReplyOn::excludes" [outcome_v a; outcome_v b]
+    (CVal (VBool (outcome_eqb a b || is_always a || is_always b))).
+Proof. destruct a, b; (apply (calls_of_run _ _ 20); [reflexivity | vm_compute; reflexivity]). Qed.
+
+Lemma excludes_is_symmetric (a b : outcome) :
+  outcome_eqb a b || is_always a || is_always b = outcome_eqb b a || is_always b || is_always a.
+Proof. destruct a, b; reflexivity. Qed.
+
+(* the outcome names: exactly `success`, `error`, `always` *)
+Definition outcome_of_name (s : string) : option outcome :=
+  if "success" =? s then Some OSuccess else if "error" =? s then Some OError else if "always" =? s then Some OAlways else None.
+
+Theorem translated_reply_on_new d (s : string) :
+  exists e, calls check_fns (S d) "ReplyOn::new" [VStr s]
+    (CVal (match outcome_of_name s with Some o => VCon "Ok" [outcome_v o] | None => VCon "Err" [e] end)).
+Proof.
+  unfold outcome_of_name. eexists.
+  destruct ("success" =? s) eqn:E1; [apply String.eqb_eq in E1; subst s; apply (calls_of_run _ _ 20); [reflexivity | vm_compute; reflexivity]|].
+  destruct ("error" =? s) eqn:E2; [apply String.eqb_eq in E2; subst s; apply (calls_of_run _ _ 20); [reflexivity | vm_compute; reflexivity]|].
+  destruct ("always" =? s) eqn:E3; [apply String.eqb_eq in E3; subst s; apply (calls_of_run _ _ 20); [reflexivity | vm_compute; reflexivity]|].
+  eapply calls_intro with (c := CVal _); try reflexivity.
+  simpl fn_body. cbn [app combine fn_params].
+  eapply ev_block; [|reflexivity]. apply ev_stmts_tail.
+  eapply ev_match; [cmp 8|].
+  do 3 (eapply ev_arm_miss; [cbn [pmatch value_eqb]; rewrite ?E1, ?E2, ?E3; reflexivity|]).
+  eapply ev_arm_hit; [reflexivity|]. cmp 14.
+Qed.
